@@ -8,7 +8,7 @@ from ..astutil import Guards, enum_paths, src, is_name, is_attr, local_defs
 from ..fold import TT, NotConst
 from ..model import own_nodes
 from ..tables import get_tables
-from .c06 import check_composition
+from .c06 import check_composition, check_serializer, SERIALIZER_REGIONS
 
 EXPLANATION = (
     'Only structural preconditions of the normal forms are decided. R10.1: the clause-keyword table of ReindentFilter '
@@ -40,6 +40,8 @@ def run(ctx):
     check_implies_strip(ctx)
     check_operators(ctx)
     check_stripws(ctx)
+    # the serializer right-strips exactly the lines outside quoted text: its idea of a quoted region must agree with the lexer's
+    check_serializer(ctx, 'R10.4', [r for r in SERIALIZER_REGIONS if r[0].startswith(('single-quoted', 'double-quoted'))])
 
 
 def check_split_table(ctx, V):
